@@ -109,13 +109,30 @@ theorem ilup_scale (c : K) (hc : c ≠ 0) (k : Nat) (ω : K) (A : CRS K) (hA : A
     (hs : A.sortedb = true) (hd : hasDiagb A = true) :
     patPower (scale A c) k = patPower A k ∧
     (ilup k ω).setup (scale A c) = SetupOutcome.map (scaleFactors c) ((ilup k ω).setup A) ∧
-    ∀ F, (ilup k ω).setup A = .ok F → strictUpperb F.U = true → F.U.WF → F.U.nrows = F.L.nrows → F.U.ncols = F.L.nrows →
-      F.L.nrows = A.nrows →
+    ∀ F, (ilup k ω).setup A = .ok F →
+      (∀ b : Vec K, b.size = A.nrows → iluSolve (scaleFactors c F) b = vsmul c⁻¹ (iluSolve F b)) ∧
       ∀ f x t t' : Vec K,
-        (ilup k ω).applyPre (scaleFactors c F) (scale A c) (vsmul c f) x t = (ilup k ω).applyPre F A f x t' := by
+        (ilup k ω).applyPre (scaleFactors c F) (scale A c) (vsmul c f) x t = (ilup k ω).applyPre F A f x t' ∧
+        (ilup k ω).applyPost (scaleFactors c F) (scale A c) (vsmul c f) x t = (ilup k ω).applyPost F A f x t' := by
   refine ⟨patPower_scale A c k, ilupFactorW_scale c hc k A hA hsq hs hd, ?_⟩
-  intro F _ h2 h4 h7 h8 h5 f x t t'
-  exact iluSweep_scale c hc ω F A h2 h4 h7 h8 (by omega) f x t t'
+  intro F hF
+  have hF' : ilupFactor k A = .ok F := by rw [← C06c.ilup_as_written_eq_spec k A hA hsq hs hd]; exact hF
+  have hwf : strictUpperb F.U = true ∧ F.U.WF ∧ F.L.nrows = A.nrows ∧ F.U.nrows = A.nrows ∧ F.U.ncols = A.nrows := by
+    unfold ilupFactor at hF'
+    by_cases hk : k = 0
+    · rw [if_pos hk] at hF'
+      obtain ⟨_, h2, _, h4, h5, _, h7, h8, _, _⟩ := ilu0Factor_wf A hA hsq hs F hF'
+      exact ⟨h2, h4, h5, h7, h8⟩
+    · rw [if_neg hk] at hF'
+      obtain ⟨_, h2, _, h4, h5, _, h7, h8, _, _⟩ := ilu0Factor_wf _ (padPattern_wf _ A hsq)
+        (by rw [padPattern_nrows]; exact hsq) (padPattern_sorted _ A) F hF'
+      rw [padPattern_nrows] at h5 h7 h8
+      exact ⟨h2, h4, h5, h7, h8⟩
+  obtain ⟨h2, h4, h5, h7, h8⟩ := hwf
+  refine ⟨fun b hb => iluSolve_scale c hc F h2 h4 (by omega) (by omega) b (by omega), ?_⟩
+  intro f x t t'
+  exact ⟨iluSweep_scale c hc ω F A h2 h4 (by omega) (by omega) (by omega) f x t t',
+    iluSweep_scale c hc ω F A h2 h4 (by omega) (by omega) (by omega) f x t t'⟩
 
 example : (ilup 1 (1 : ℚ)).setup (scale C06.exA 4) = .ok (scaleFactors 4 C06.exF) := by
   rw [(ilup_scale (4 : ℚ) (by norm_num) 1 1 C06.exA (by decide) rfl (by decide) (by decide)).2.1]
